@@ -32,7 +32,7 @@ KMAX = 1e8
 
 def floors(tier):
     return {"gcp_judged": 3000, "outward_on_bound": 800, "breakpoints_crossed_inputs": 800, "c_checked": 1500,
-            "intercepted_calls": 200, "tie_inputs": 600, "__nontrivial__": 200}
+            "intercepted_calls": 200, "tie_inputs": 600, "inputs_with_theta_exactly_one": 40, "__nontrivial__": 200}
 
 
 def exhaustive(tier):
@@ -130,8 +130,9 @@ def judge_gcp(out, x, g, lb, ub, mats, B, xcp, c, where, tags):
 # ---------------------------------------------------------------------------
 # synthetic inputs
 # ---------------------------------------------------------------------------
-def make_memory(rng, n, npairs, convex=True):
-    """Real LBFGSB_MATRICES built by the package from accepted pairs; returns (mats, B_dense) or None."""
+def make_memory(rng, n, npairs, convex=True, unit_theta=False):
+    """Real LBFGSB_MATRICES built by the package from accepted pairs; returns (mats, B_dense) or None.
+    unit_theta: the newest pair lies in a unit-curvature plane (y == s exactly), so theta == 1.0 with a non-empty memory."""
     from collections import deque
 
     from lbfgsb.bfgsmats import LBFGSB_MATRICES, update_lbfgs_matrices
@@ -139,15 +140,31 @@ def make_memory(rng, n, npairs, convex=True):
     mats = LBFGSB_MATRICES(n)
     if npairs == 0:
         return mats, mats.theta * np.eye(n)
-    A = gen.rand_spd(rng, n, float(np.exp(rng.uniform(0, np.log(1e3)))))
-    if not convex:
+    if unit_theta and n >= 3:
+        dg = np.concatenate([[1.0, 1.0], 2.0 ** rng.integers(-2, 4, n - 2)])
+        A = np.diag(dg)
+        # couple the non-unit block so that the memory term W M W^T is not diagonal
+        if n >= 4:
+            A[2, 3] = A[3, 2] = 0.25 * min(dg[2], dg[3])
+    else:
+        unit_theta = False
+        A = gen.rand_spd(rng, n, float(np.exp(rng.uniform(0, np.log(1e3)))))
+    if not convex and not unit_theta:
         A = A - 0.3 * np.eye(n)
-    x = rng.standard_normal(n)
+    x = rng.standard_normal(n) if not unit_theta else rng.integers(-8, 9, n) / 4.0
     X, G = deque([x.copy()]), deque([A @ x])
     tries = 0
     while len(X) - 1 < npairs and tries < 4 * npairs + 4:
         tries += 1
-        x = x + rng.standard_normal(n) * np.exp(rng.uniform(-2, 0.5))
+        if unit_theta:
+            step = rng.integers(-8, 9, n) / 8.0
+            if len(X) - 1 == npairs - 1:
+                step[2:] = 0.0  # the newest step stays in the unit-curvature plane: y = s, theta = 1 exactly
+                if not np.any(step[:2]):
+                    step[0] = 0.5
+            x = x + step
+        else:
+            x = x + rng.standard_normal(n) * np.exp(rng.uniform(-2, 0.5))
         mats = update_lbfgs_matrices(x.copy(), A @ x, X, G, max(npairs, 1), mats, False)
     S = [X[i + 1] - X[i] for i in range(len(X) - 1)]
     Y = [G[i + 1] - G[i] for i in range(len(G) - 1)]
@@ -313,11 +330,14 @@ def run(spec):
                 n = int(rng.integers(1, 11))
                 maxcor = int(rng.integers(1, 8))
                 npairs = int(rng.integers(0, maxcor + 1))
-                mm = make_memory(rng, n, npairs, convex=bool(rng.random() < 0.7))
+                unit = bool(rng.random() < 0.15)
+                mm = make_memory(rng, n, npairs, convex=bool(rng.random() < 0.7), unit_theta=unit)
                 if mm is None:
                     out.count("skipped_memory_inconsistent")
                     continue
                 mats, B = mm
+                if unit and mats.theta == 1.0 and mats.use_factor:
+                    out.count("inputs_with_theta_exactly_one")
                 lb, ub = gen.rand_box(rng, n, gen.pick(rng, ["mixed", "boxed", "narrow", "lower", "upper", "none", "boxed_degenerate"]))
                 x = gen.rand_x0(rng, lb, ub, gen.pick(rng, ["interior", "face", "vertex"]))
                 g = rng.standard_normal(n) * np.exp(rng.uniform(-2, 3))
